@@ -8,7 +8,7 @@ from sa.core import AnalysisError, Report, loc, norm_src
 from sa.consteval import ev, NOTIMPL, NameRef
 from sa.targets_model import Target, kind_arities, known_names
 from sa.oracles import targets as O
-from sa.paths import enumerate_paths, calls_in, call_name, dotted, event_has_call
+from sa.paths import enumerate_paths, calls_in, call_name, dotted, event_has_call, constants_on_path
 from sa.defuse import origins
 from rules.C05 import check_kind_templates, check_constants, check_make_constant, check_printer_state_not_rebound, check_template_nesting_by_parsing
 
@@ -146,11 +146,17 @@ def run(repo, tier):
         if p.exit == "raise":
             continue
         tests = [(e.node, e.pol) for e in p.events if e.kind == "test"]
-        is_apply = any(pol and norm_src(t) == "expr.kind == 'apply'" for t, pol in tests)
-        is_symbol = any(pol and norm_src(t) == "expr.kind == 'symbol'" for t, pol in tests)
-        if is_apply or is_symbol:
+        kpos, _kneg = constants_on_path(p.events, "expr.kind")
+        if kpos is not None and kpos and kpos <= {"apply", "symbol"}:
             continue
-        defined_test = next((pol for t, pol in tests if norm_src(t) == "expr.ref in self.defined_refs"), None)
+        defined_test = None
+        for t, pol in tests:
+            while isinstance(t, ast.UnaryOp) and isinstance(t.op, ast.Not):
+                t, pol = t.operand, not pol
+            if isinstance(t, ast.Compare) and len(t.ops) == 1 and isinstance(t.ops[0], (ast.In, ast.NotIn)) and dotted(t.left) == "expr.ref" \
+                    and dotted(t.comparators[0]) == "self.defined_refs":
+                defined_test = pol if isinstance(t.ops[0], ast.In) else not pol
+                break
         if defined_test is None:
             r.ob("R6.3", f"targets/stablehlo.py::Printer.tostring path {p.describe()}", False, "a node is printed without testing whether its $ref is already bound", loc(S.rel, f))
             continue
@@ -170,7 +176,7 @@ def run(repo, tier):
     # arguments are bound before the body is printed
     for p in enumerate_paths(f, unroll=(1,)):
         tests = [(e.node, e.pol) for e in p.events if e.kind == "test"]
-        if not any(pol and norm_src(t) == "expr.kind == 'apply'" for t, pol in tests):
+        if constants_on_path(p.events, "expr.kind")[0] != {"apply"}:
             continue
         i_add = next((i for i, e in enumerate(p.events) if e.kind == "stmt" and _adds_other(e.node, "expr")), None)
         i_body = next((i for i, e in enumerate(p.events) if e.kind in ("stmt", "iter") and any((call_name(c) or "").endswith("tostring") for c in calls_in(e.node))), None)
